@@ -37,7 +37,7 @@ ASSUMPTIONS = [
     "qq_depth be ignored; a qq_depth keyword overrides configured min/max).",
 ]
 MIN_NONTRIVIAL = {'quick': 3000, 'thorough': 60000}
-REQUIRED_MONITORS = ['roundtrip', 'unknown-name', 'wait_to_parse',
+REQUIRED_MONITORS = ['config-object-vs-text', 'roundtrip', 'unknown-name', 'wait_to_parse',
                      'channel:bulk', 'channel:layout-over-copy_all',
                      'channel:A=C-reparsed',
                      'unknown-name:config-attribute', 'channel:A=B', 'channel:A=C',
@@ -574,22 +574,79 @@ def run_roundtrip(rng, ctx, pytrs):
                         f"{getattr(c1, k)!r} before (text {text!r} -> "
                         f"{t2!r})", dedup=f"{name}|{k}")
                     return
-    # A Config object and its text must configure an object identically.
+    # A Config object -- compiled from text, built by from_dict / from_kwargs
+    # or filled attribute by attribute -- and its text configure an object
+    # identically, at creation and by assignment to .config alike.
     with ctx.guard(case):
+        TD = 'N/2NE/4NE/4, NE, N/2 of Lot 1'
+        tst = {k: v for k, v in st.items() if k != 'wait_to_parse'}
         c1 = pytrs.Config(text)
-        ta = pytrs.Tract('N/2NE/4NE/4, NE, N/2 of Lot 1', config=c1)
-        tb = pytrs.Tract('N/2NE/4NE/4, NE, N/2 of Lot 1',
-                         config=c1.decompile_to_text())
-        for k in ('default_ns', 'default_ew', 'parse_qq', 'clean_qq',
-                  'suppress_lot_divs', 'ocr_scrub', 'qq_depth',
-                  'qq_depth_min', 'qq_depth_max', 'break_halves'):
-            if getattr(ta, k) != getattr(tb, k):
+        c_dict = pytrs.Config.from_dict(dict(tst))
+        c_kw = pytrs.Config.from_kwargs(**tst)
+        c_attr = pytrs.Config()
+        for k, v in tst.items():
+            setattr(c_attr, k, v)
+        tb = pytrs.Tract(TD, config=c1.decompile_to_text())
+        tkeys = ('default_ns', 'default_ew', 'parse_qq', 'clean_qq',
+                 'suppress_lot_divs', 'ocr_scrub', 'qq_depth',
+                 'qq_depth_min', 'qq_depth_max', 'break_halves')
+
+        def assigned(c):
+            t = pytrs.Tract(TD)
+            t.config = c
+            return t
+        variants = [
+            ('Tract(config=Config(text))', pytrs.Tract(TD, config=c1)),
+            ('Tract(config=Config.from_dict(..))', pytrs.Tract(TD, config=c_dict)),
+            ('Tract(config=Config.from_kwargs(..))', pytrs.Tract(TD, config=c_kw)),
+            ('Tract(config=Config() filled by attribute)',
+             pytrs.Tract(TD, config=c_attr)),
+            ('Tract().config = text', assigned(c1.decompile_to_text())),
+            ('Tract().config = Config.from_kwargs(..)', assigned(c_kw)),
+        ]
+        ctx.hit('config-object-vs-text')
+        for label, ta in variants:
+            bad = next((k for k in tkeys if getattr(ta, k) != getattr(tb, k)),
+                       None)
+            if bad is not None:
                 ctx.violation('config-object-vs-text', case,
-                              f"Tract(config=Config({text!r})).{k} == "
-                              f"{getattr(ta, k)!r} but via its text "
-                              f"{c1.decompile_to_text()!r}: "
-                              f"{getattr(tb, k)!r}", dedup=k)
+                              f"{label} for {text!r}: .{bad} == "
+                              f"{getattr(ta, bad)!r} but Tract(config=<its "
+                              f"text>) has {getattr(tb, bad)!r}",
+                              dedup=f"{label}|{bad}")
                 break
+            # ... and the same effect: parsed lots/aliquots and the
+            # Twp/Rge/Sec the directions produce.
+            ta.parse()
+            ref = pytrs.Tract(TD, config=c1.decompile_to_text())
+            ref.parse()
+            got = [list(ta.lots), list(ta.qqs), ta.set_twprgesec(154, 97, 14)]
+            exp = [list(ref.lots), list(ref.qqs),
+                   f"154{tst.get('default_ns') or 'n'}"
+                   f"97{tst.get('default_ew') or 'w'}14"]
+            if got != exp:
+                ctx.violation('config-object-vs-text', case,
+                              f"{label} for {text!r}: parse / set_twprgesec"
+                              f"(154, 97, 14) give {got}, expected {exp}",
+                              dedup=f"{label}|effect")
+                break
+        # PLSSDesc likewise.
+        ptext = 'T154-R97 Sec 14: ' + TD
+        pref = pytrs.PLSSDesc(ptext, config=c1.decompile_to_text())
+        if not tst.get('layout') and not tst.get('wait_to_parse'):
+            pref.parse(parse_qq=True)
+            for label, c in (('Config(text)', c1), ('from_dict', c_dict),
+                             ('from_kwargs', c_kw), ('attributes', c_attr)):
+                pd = pytrs.PLSSDesc(ptext, config=c)
+                pd.parse(parse_qq=True)
+                got = [(t.trs, list(t.lots), list(t.qqs)) for t in pd.tracts]
+                exp = [(t.trs, list(t.lots), list(t.qqs)) for t in pref.tracts]
+                if got != exp:
+                    ctx.violation('config-object-vs-text', case,
+                                  f"PLSSDesc(config=<Config via {label}>) for "
+                                  f"{text!r} gives {got}, via the text {exp}",
+                                  dedup=f"plss|{label}")
+                    break
     if rng.random() < 0.15:
         if rng.random() < 0.5:
             name = rng.choice(UNKNOWN)
